@@ -71,7 +71,8 @@ def run_exhaustive(case, rec):
     from shangrla.core.NonnegMean import NonnegMean
     from shangrla.raire.raire_utils import NEBAssertion, NENAssertion
     n = case["n"]
-    cands = [str(10 + i) for i in range(n)]
+    # identifiers that are substrings / prefixes of one another, as in real data ("4" and "47")
+    cands = ["4", "47", "7", "74", "1", "10"][:n]
     cname = "339"
     con = Contest.from_dict({"id": cname, "name": cname, "risk_limit": 0.05, "cards": 1000,
                              "choice_function": Contest.SOCIAL_CHOICE_FUNCTION.IRV, "n_winners": 1, "candidates": cands,
